@@ -143,7 +143,7 @@ theorem exec_sim (o : Oracle) (a : Args) (m : Mode) (s : Stmt) :
   | setb v cnd =>
     intro e p c rel hr _
     obtain ⟨cv, mono⟩ := cond_sim o a m e cnd p c rel
-    have hret : (evalCond o a m e cnd c).2.ret = none := by rw [mono.ret]; exact hr
+    have hret : (evalCond o a m e cnd c).2.ret = none := by rw [mono]; exact hr
     refine ⟨fun _ => ?_, fun h => ?_⟩
     · simp only [aExec, exec]
       have key : ∀ (b : Bool) (q : APt), Rel q (evalCond o a m e cnd c).2 → (evalCond o a m e cnd c).1 = b →
@@ -208,7 +208,7 @@ theorem exec_sim (o : Oracle) (a : Args) (m : Mode) (s : Stmt) :
   | eval cnd =>
     intro e p c rel hr _
     obtain ⟨cv, mono⟩ := cond_sim o a m e cnd p c rel
-    have hret : (evalCond o a m e cnd c).2.ret = none := by rw [mono.ret]; exact hr
+    have hret : (evalCond o a m e cnd c).2.ret = none := by rw [mono]; exact hr
     refine ⟨fun _ => ?_, fun h => ?_⟩
     · simp only [aExec, exec]
       cases hb : (evalCond o a m e cnd c).1 with
@@ -232,7 +232,7 @@ theorem exec_sim (o : Oracle) (a : Args) (m : Mode) (s : Stmt) :
   | ite cnd t f iht ihf =>
     intro e p c rel hr hok
     obtain ⟨cv, mono⟩ := cond_sim o a m e cnd p c rel
-    have hret : (evalCond o a m e cnd c).2.ret = none := by rw [mono.ret]; exact hr
+    have hret : (evalCond o a m e cnd c).2.ret = none := by rw [mono]; exact hr
     simp only [aExec] at hok ⊢
     rw [Bool.and_eq_true] at hok
     simp only [exec]
@@ -285,11 +285,18 @@ theorem exec_sim (o : Oracle) (a : Args) (m : Mode) (s : Stmt) :
     intro e p c rel _ hok
     simp only [aExec] at hok ⊢
     simp only [exec]
-    have mono : ErrMono c { c with tv := c.tv + 1 } := ⟨rfl, rfl, rfl, rfl, rfl, rfl, id⟩
+    have mono : ErrMono c { c with tv := c.tv + 1 } := ⟨rfl, rfl, rfl, rfl, rfl, rfl, rfl, id⟩
     have hp := post_checkResult a m p _ (o.rval c.tv) (rel.mono mono) hok
     refine ⟨fun h => ?_, fun _ => hp⟩
     have := checkResult_ret_some a m (o.rval c.tv) { c with tv := c.tv + 1 }
     rw [h] at this; cases this
+  | retCheckNaN =>
+    intro e p c rel _ _
+    simp only [aExec, exec]
+    refine ⟨fun h => ?_, fun _ => ⟨fun herr => ?_⟩⟩
+    · have := checkResult_ret_some a m true c
+      rw [h] at this; cases this
+    · simp [checkResult, St.evalError] at herr
   | ret0 =>
     intro e p c rel _ hok
     simp only [aExec] at hok ⊢
